@@ -757,7 +757,8 @@ def nac_lowsym_probes(run, rng, thorough):
                 qc = np.linalg.inv(prim.cell) @ q
                 A = qc @ zz                                   # (n,3): sum_k q_k Z[i][k][a]
                 N = len(ph.supercell) // n
-                const = dmo.nac_factor / N / (qc @ np.array(dmo.dielectric_constant) @ qc)
+                # 4 pi / |V| * unit factor: the physical (absolute) volume, computed here, not taken from the object under test
+                const = 14.4 * 4.0 * np.pi / abs(float(np.linalg.det(prim.cell))) / N / (qc @ np.array(dmo.dielectric_constant) @ qc)
                 fc2 = fc.copy()
                 s2p, p2s = prim.s2p_map, prim.p2s_map
                 for i in range(n):
